@@ -30,19 +30,19 @@ def gen_b3(repo):
     out.append(f'def b3TraceIdHexLen : Nat := {X._int_const(txt, "kTraceIdHexStrLength")}\n')
     out.append(f'def b3SpanIdHexLen : Nat := {X._int_const(txt, "kSpanIdHexStrLength")}\n')
     # ExtractImpl: SplitString(singleB3Header, '-', fields.data(), 3) < 2
-    m = X._one(r"SplitString\s*\(\s*singleB3Header\s*,\s*'((?:[^'\\]|\\.)+)'\s*,\s*fields\.data\(\)\s*,\s*(\d+)\s*\)\s*<\s*(\d+)", txt,
+    m = X._one(r"SplitString\s*\(\s*\w+\s*,\s*'((?:[^'\\]|\\.)+)'\s*,\s*[\w.()]+\s*,\s*(\d+)\s*\)\s*<\s*(\d+)", txt,
                'SplitString(singleB3Header, sep, fields.data(), n) < m')
     out.append(f'def b3Sep : UInt8 := {X._c_string_literal(m.group(1))[0]}\n')
     out.append(f'def b3FieldCount : Nat := {int(m.group(2))}\n')
     out.append(f'def b3MinFields : Nat := {int(m.group(3))}\n')
     # TraceFlagsFromHex: length() != 1 || (trace_flags[0] != '1' && trace_flags[0] != 'd')
-    m = X._one(r"trace_flags\.length\(\)\s*!=\s*1\s*\|\|\s*\(\s*trace_flags\[0\]\s*!=\s*'(.)'\s*&&\s*trace_flags\[0\]\s*!=\s*'(.)'\s*\)",
+    m = X._one(r"(\w+)\.(?:length|size)\(\)\s*!=\s*1\s*\|\|\s*\(\s*\1\[0\]\s*!=\s*'(.)'\s*&&\s*\1\[0\]\s*!=\s*'(.)'\s*\)",
                txt, "TraceFlagsFromHex guard")
-    out.append(f'def b3SampledChar : UInt8 := {ord(m.group(1))}\n')
-    out.append(f'def b3DebugChar : UInt8 := {ord(m.group(2))}\n')
+    out.append(f'def b3SampledChar : UInt8 := {ord(m.group(2))}\n')
+    out.append(f'def b3DebugChar : UInt8 := {ord(m.group(3))}\n')
     # single-header injector: separators and the sampled characters
     single = X._one(r'class\s+B3Propagator\s*:.*?\n\};', txt, 'class B3Propagator').group(0)
-    seps = re.findall(r"trace_identity\[[^\]]*\]\s*=\s*'(.)'\s*;", single)
+    seps = re.findall(r"\w+\[[^\]]*\]\s*=\s*'(.)'\s*;", single)
     m = X._one(r"IsSampled\(\)\s*\?\s*'(.)'\s*:\s*'(.)'", single, "B3Propagator::Inject sampled ? '1' : '0'")
     if len(seps) != 2:
         raise X.ExtractError('B3Propagator::Inject: expected two separator writes')
@@ -69,18 +69,18 @@ def gen_b3(repo):
     out.append(f'def jaegerSpanIdLen : Nat := {X._int_const(txt, "span_id_length")}\n')
     out.append(f'def jaegerFieldCount : Nat := {X._int_const(txt, "trace_field_count")}\n')
     out.append(f'def jaegerIsSampled : Nat := {X._int_const(txt, "kIsSampled")}\n')
-    m = X._one(r"SplitString\s*\(\s*trace_identity\s*,\s*'(.)'", txt, "Jaeger SplitString separator")
+    m = X._one(r"SplitString\s*\(\s*\w+\s*,\s*'(.)'", txt, "Jaeger SplitString separator")
     out.append(f'def jaegerSep : UInt8 := {ord(m.group(1))}\n')
     # the six literal writes of Inject after the two ids: ':' ':' '0' ':' '0' and sampled ? '1' : '0'
-    lits = re.findall(r"trace_identity\[([^\]]*)\]\s*=\s*'(.)'\s*;", txt)
-    m = X._one(r"trace_identity\[[^\]]*\+\s*5\s*\]\s*=\s*span_context\.IsSampled\(\)\s*\?\s*'(.)'\s*:\s*'(.)'", txt, 'Jaeger sampled digit')
+    lits = re.findall(r"\w+\[([^\]]*)\]\s*=\s*'(.)'\s*;", txt)
+    m = X._one(r"\w+\[[^\]]*\+\s*5\s*\]\s*=\s*[\w.()]*IsSampled\(\)\s*\?\s*'(.)'\s*:\s*'(.)'", txt, 'Jaeger sampled digit')
     if len(lits) != 5:
         raise X.ExtractError('JaegerPropagator::Inject: expected five literal writes')
     out.append(f'/-- the literal bytes `Inject` writes at offsets +0 (after the trace id) and +1..+4 (after the span id) -/\n'
                f'def jaegerInjectLits : List UInt8 := {X.lean_bytes(bytes(ord(c) for _, c in lits))}\n')
     out.append(f'def jaegerInjectSampled : UInt8 := {ord(m.group(1))}\n')
     out.append(f'def jaegerInjectNotSampled : UInt8 := {ord(m.group(2))}\n')
-    m = X._one(r'char\s+trace_identity\s*\[\s*trace_id_length\s*\+\s*span_id_length\s*\+\s*(\d+)\s*\]', txt, 'Jaeger trace_identity size')
+    m = X._one(r'char\s+\w+\s*\[\s*trace_id_length\s*\+\s*span_id_length\s*\+\s*(\d+)\s*\]', txt, 'Jaeger trace_identity size')
     out.append(f'def jaegerInjectExtra : Nat := {int(m.group(1))}\n')
     out.append('end Otel.Gen\n')
     return '\n'.join(out)
